@@ -103,6 +103,20 @@ def make_grammars(seed, tier):
                 t = genrun.G(gid + "i", gg.text(inline=True), ctx=gg.ctx, meta=dict(meta, twin_of=gid, twin="inlined"))
                 t.gg = gg
                 gs.append(t)
+    # committed regression corpus: fixed grammars with fixed inputs
+    import glob
+    for path in sorted(glob.glob(os.path.join(vp.VERIF, "corpus", "grammars", "*.ebnf"))):
+        text = open(path, encoding="utf-8").read()
+        nm = os.path.basename(path)[:-5]
+        inp = open(path[:-5] + ".inputs", encoding="utf-8").read().split("\n")
+        if inp and inp[-1] == "":
+            inp.pop()
+        meta = {"family": "corpus", "ctx": False, "memo": "@memoize" in text, "leftrec": "@leftrec" in text,
+                "user_ws": False, "hooks": ("@check" in text or "@extern" in text), "include": False,
+                "ninp": len(inp), "corpus": nm, "inputs": inp}
+        g = genrun.G("gk_" + nm, text, meta=meta)
+        g.gg = None
+        gs.append(g)
     return gs
 
 
@@ -131,7 +145,7 @@ def build(seed, tier, log=vp.log):
         for r in g.exports:
             key = (origin, r)
             if key not in inputs:
-                inputs[key] = g.gg.inputs(r, g.meta["ninp"])
+                inputs[key] = g.meta["inputs"] if g.meta.get("corpus") else g.gg.inputs(r, g.meta["ninp"])
             for inp in inputs[key]:
                 c = Case()
                 c.g, c.rule, c.inp = g, r, inp
